@@ -7,11 +7,12 @@
    status value (optional members present, absent or null, any member order,
    unknown members, sample of any length) is mapped to exactly that status.
    serde_json::from_str (JSON text -> value) is the trusted step in between.
-   The Bedrock pong round trip is proved for every status (c03_bedrock_roundtrip).
-   PARTIAL: the legacy kick-packet round trips are decided per generated state by
-   the correspondence run against Spec/MinecraftSpec.v. *)
+   The Bedrock pong round trip is proved for every status (c03_bedrock_roundtrip),
+   and so are the legacy kick packets: the 1.6 format (read by the 1.6 and the
+   1.4 query) and the older U+00A7-separated format (read by the 1.4 and the
+   beta 1.8 query), for every status text in UTF-16BE, surrogate pairs included. *)
 From GD Require Import Base.Prelude Model.Strings Model.StrOps Model.Buffer Model.Net Model.Valve Model.Gamespy Model.View Model.Minecraft.
-From GD Require Import Spec.Rand Spec.MinecraftSpec Proofs.MinecraftProofs Proofs.MinecraftRoundtrip.
+From GD Require Import Spec.Rand Spec.MinecraftSpec Proofs.MinecraftProofs Proofs.MinecraftRoundtrip Proofs.LegacyRoundtrip.
 
 Theorem c03_auto_java_first : forall json port t rs n r n1,
   query_java json port t rs n = (Ok r, n1) -> query_auto json port t rs n = (Ok r, n1).
@@ -68,6 +69,32 @@ Theorem c03_bedrock_roundtrip : forall s, wf_bedrock s ->
   run_r bedrock_parse (bedrock_pong s) = Ok (bedrock_expected s).
 Proof. exact bedrock_roundtrip. Qed.
 Print Assumptions c03_bedrock_roundtrip.
+
+(* ---- legacy kick packets ----
+   wf_legacy: version and message of the day are Unicode scalar values other than U+0000 (surrogate pairs on
+   the wire for those above U+FFFF), the protocol number is an i32, the counts are u32; units_count < 65536:
+   the kick packet's length field is 16 bits. For the older format the message may not contain U+00A7. *)
+Theorem c03_wf_legacy_means : forall s,
+  wf_legacy s = (forallb scalar_ok (ls_version s) && forallb scalar_ok (ls_motd s)
+                 && (- 2147483648 <=? ls_protocol s)%Z && (ls_protocol s <? 2147483648)%Z
+                 && (ls_online s <? 4294967296) && (ls_max s <? 4294967296))
+  /\ (forall c, scalar_ok c = (0 <? c) && (c <? 1114112) && negb ((55296 <=? c) && (c <=? 57343))).
+Proof. exact (fun s => conj eq_refl (fun c => eq_refl)). Qed.
+Print Assumptions c03_wf_legacy_means.
+Theorem c03_legacy_v16_roundtrip : forall s, wf_legacy s = true -> lenN (utf16be (v16_text s)) / 2 < 65536 ->
+  legacy_parse V1_6 (kick (v16_text s)) = Ok (v16_expected s) /\ legacy_parse V1_4 (kick (v16_text s)) = Ok (v16_expected s).
+Proof. exact v16_roundtrip. Qed.
+Print Assumptions c03_legacy_v16_roundtrip.
+Theorem c03_legacy_old_roundtrip : forall s, wf_legacy s = true -> forallb (fun c => negb (c =? 167)) (ls_motd s) = true ->
+  lenN (utf16be (old_text s)) / 2 < 65536 ->
+  legacy_parse V1_4 (kick (old_text s)) = Ok (old_expected V1_4 s) /\ legacy_parse VB1_8 (kick (old_text s)) = Ok (old_expected VB1_8 s).
+Proof. exact old_roundtrip. Qed.
+Print Assumptions c03_legacy_old_roundtrip.
+Example c03_wf_legacy_nonvacuous :
+  existsb (fun seed => let s := fst (gen_legacy true seed) in
+             wf_legacy s && forallb (fun c => negb (c =? 167)) (ls_motd s) && existsb (fun c => 65535 <? c) (ls_motd s ++ ls_version s))
+          (map (fun i => 7919 * N.of_nat i + 13) (seq 1 60)) = true.
+Proof. vm_compute. reflexivity. Qed.
 
 (* generated statuses meet the hypothesis; and, as tests, the Bedrock and
    legacy formats decode on generated states *)
